@@ -234,7 +234,9 @@ func (u *ExecUniverse) human(r CaseRef) string {
 }
 
 // execFamily is the whole conformance pass for one universe: observe, judge,
-// reproduce, and collect the violations whose clause belongs to this check.
+// and for every rejection whose clause belongs to this check observe again
+// and let TLC judge the second observation too; only rejections confirmed
+// that way are reported.
 func (rc *RunCtx) execFamily(u *ExecUniverse, prefixes ...string) {
 	t0 := time.Now()
 	rows, err := u.observeAll()
@@ -249,9 +251,13 @@ func (rc *RunCtx) execFamily(u *ExecUniverse, prefixes ...string) {
 	fmt.Printf("  judged in %.1fs, %d records with remarks\n", time.Since(t1).Seconds(), len(verdicts))
 	other := map[string]int{}
 	skipped, bag := 0, 0
+	type rej struct {
+		id  int
+		cl  string
+		dev string
+	}
+	var rejs []rej
 	for id, clauses := range verdicts {
-		row := rows[id-1]
-		ref := u.Cases[id-1]
 		for _, cl := range clauses {
 			switch {
 			case strings.HasPrefix(cl, "skip."):
@@ -281,24 +287,67 @@ func (rc *RunCtx) execFamily(u *ExecUniverse, prefixes ...string) {
 				other[strings.SplitN(cl, ".", 2)[0]]++
 				continue
 			}
-			// reproduce
-			if !rc.reproduces(u, ref, row) {
-				rc.infra("record %d (%s) rejected with %s but the observation did not reproduce", id, u.human(ref), cl)
+			rejs = append(rejs, rej{id, cl, dev})
+		}
+	}
+	sort.Slice(rejs, func(i, j int) bool {
+		if (rejs[i].dev == "") != (rejs[j].dev == "") {
+			return rejs[i].dev == "" // unexplained rejections are confirmed first
+		}
+		return rejs[i].id < rejs[j].id || (rejs[i].id == rejs[j].id && rejs[i].cl < rejs[j].cl)
+	})
+	extra := 0
+	if len(rejs) > maxConfirm {
+		extra = len(rejs) - maxConfirm
+		rejs = rejs[:maxConfirm]
+	}
+	if len(rejs) > 0 {
+		sub := &ExecUniverse{Paths: u.Paths, Docs: u.Docs, Vars: u.Vars}
+		idx := map[int]int{}
+		for _, r := range rejs {
+			if _, ok := idx[r.id]; !ok {
+				sub.Cases = append(sub.Cases, u.Cases[r.id-1])
+				idx[r.id] = len(sub.Cases)
+			}
+		}
+		rows2, err := sub.observeAll()
+		if err != nil {
+			rc.infra("re-execution: %v", err)
+			return
+		}
+		v2 := rc.judgeExec(sub, rows2)
+		for _, r := range rejs {
+			want := r.cl
+			if r.dev != "" {
+				want = "known." + r.dev + "." + r.cl
+			}
+			confirmed := false
+			for _, c := range v2[idx[r.id]] {
+				if c == want {
+					confirmed = true
+				}
+			}
+			ref, row := u.Cases[r.id-1], rows[r.id-1]
+			human := u.human(ref) + fmt.Sprintf(" lax=%v", ref.Lax)
+			if !confirmed {
+				rc.infra("record %d (%s) rejected with %s but a second execution was not rejected", r.id, human, r.cl)
 				continue
 			}
-			human := u.human(ref) + fmt.Sprintf(" lax=%v", ref.Lax)
 			b, _ := json.Marshal(map[string]any{"verbose": showRun(row.V), "silent": showRun(row.S)})
-			sig := cl + " | " + human
-			if dev != "" {
-				sig = "dev:" + dev
+			sig := r.cl + " | " + human
+			if r.dev != "" {
+				sig = "dev:" + r.dev
 			}
 			rc.Viol = append(rc.Viol, Violation{
-				Clause: cl,
+				Clause: r.cl,
 				Sig:    sig,
 				Human:  human + " observed=" + string(b),
 				Replay: map[string]any{"case": u.caseOf(ref), "obs": row},
 			})
 		}
+	}
+	if extra > 0 {
+		rc.Notes = append(rc.Notes, fmt.Sprintf("%d further rejections were not re-executed (cap %d)", extra, maxConfirm))
 	}
 	rc.addInt("records_not_decided_opaque", skipped)
 	rc.addInt("records_judged_as_multiset", bag)
